@@ -12,7 +12,7 @@
    last_attempt_seen s m o    : the last produce attempt that carried m was seen by the client
                                 as o (None = acknowledged). *)
 From Coq Require Import List NArith Bool Arith.
-From KV Require Import Lib.LTS Model.Writer Proofs.WriterStmts Proofs.WriterC01a Proofs.WriterC01b.
+From KV Require Import Lib.LTS Model.Writer Proofs.WriterStmts Proofs.WriterC01a Proofs.WriterC01b Proofs.WriterHolds Proofs.WriterHolds2 Proofs.WriterHolds1.
 Import ListNotations.
 
 Theorem C01_nil_means_logged :
@@ -82,6 +82,47 @@ Theorem C01_rejected_never_sent :
   forall m a, In m (c_msgs cl) -> In a (s_journal s) -> ~ In m (a_msgs a).
 Proof. exact C08_rejected_never_sent_proof. Qed.
 Print Assumptions C01_rejected_never_sent.
+
+(* The extracted boolean predicates that the correspondence run evaluates on every recorded
+   real history are true on every run of the model (those proved so far). *)
+Theorem C01_nil_holds_on_runs :
+  forall cfg ls s, cfg_ok cfg -> run (step cfg) init ls = Some s ->
+    C01_nil_holds cfg (s_calls s) (s_journal s) (s_log s) = true.
+Proof. exact C01_nil_holds_runs. Qed.
+Print Assumptions C01_nil_holds_on_runs.
+
+Theorem C01_we_holds_on_runs :
+  forall cfg ls s, cfg_ok cfg -> run (step cfg) init ls = Some s ->
+    C01_we_holds cfg (s_calls s) (s_journal s) = true.
+Proof. exact C01_we_holds_runs. Qed.
+Print Assumptions C01_we_holds_on_runs.
+
+Theorem C01_compl_holds_on_runs :
+  forall cfg ls s, cfg_ok cfg -> run (step cfg) init ls = Some s ->
+    C01_compl_holds cfg (s_calls s) (s_journal s) (s_compl s) = true.
+Proof. exact C01_compl_holds_runs. Qed.
+Print Assumptions C01_compl_holds_on_runs.
+
+Theorem C01_no_foreign_holds_on_runs :
+  forall cfg ls s, run (step cfg) init ls = Some s -> C01_no_foreign_holds cfg (s_log s) = true.
+Proof. exact C01_no_foreign_holds_runs. Qed.
+Print Assumptions C01_no_foreign_holds_on_runs.
+
+Theorem C01_log_is_journal_on_runs :
+  forall cfg ls s, run (step cfg) init ls = Some s -> log_is_journal (s_journal s) (s_log s) = true.
+Proof. exact log_is_journal_runs. Qed.
+Print Assumptions C01_log_is_journal_on_runs.
+
+Theorem C01_dups_holds_on_runs :
+  forall cfg ls s, run (step cfg) init ls = Some s -> C01_dups_holds cfg (s_journal s) (s_log s) = true.
+Proof. exact C01_dups_holds_runs. Qed.
+Print Assumptions C01_dups_holds_on_runs.
+
+Theorem C01_rejected_sends_nothing_holds_on_runs :
+  forall cfg ls s, run (step cfg) init ls = Some s ->
+    rejected_sends_nothing_holds (s_calls s) (s_journal s) = true.
+Proof. exact rejected_sends_nothing_holds_runs. Qed.
+Print Assumptions C01_rejected_sends_nothing_holds_on_runs.
 
 (* ---- non-vacuity: two partitions, BatchSize 1, MaxAttempts 2, error 7 retriable, 3 permanent.
    Call 0 = [m1 -> partition 0; m2 -> partition 1]: m1 loses its acknowledgement and is retried
